@@ -341,11 +341,24 @@ class WsWorld:
             return min(n, 2 + ch.choose(13, "chunk-small"))
         return max(1, n - 1 - ch.choose(min(n - 1, 3), "chunk-tail"))
 
+    BURSTS = (2, 3, 5, 40)
+
     def do_deliver(self, pipe, rcv):
         k = self.pick_chunk(len(pipe.buf))
         chunk = pipe.take(k)
         if pipe.buf:
             self.run.probe("split-delivery")
+        if len(chunk) >= 2 and self.run.ch.flag("burst", 0.1):
+            # the same octets arrive as several reads handed over back to back, before any other callback runs
+            n = min(len(chunk), self.run.ch.pick(self.BURSTS, "burst-n"))
+            cuts = sorted(set(1 + self.run.ch.choose(len(chunk) - 1, "burst-cut") for _ in range(n - 1)))
+            pieces = [chunk[a:b] for a, b in zip([0] + cuts, cuts + [len(chunk)])]
+            self.run.probe("burst-delivery")
+            self.run.log("deliver-burst", pipe.name, len(chunk), len(pieces), short(chunk))
+            for piece in pieces:
+                rcv.on_delivered(piece)
+            self.fw.deliver_burst(self, rcv.t, pieces)
+            return
         self.deliver_chunk(pipe, rcv, chunk)
 
     def deliver_chunk(self, pipe, rcv, chunk):
